@@ -103,18 +103,18 @@ Qed.
 Lemma sum_allocs_init : forall scripts, sum_allocs (map (fun sc => mk_thread sc PIdle l0 false) scripts) = 0%N.
 Proof. induction scripts; simpl; auto. Qed.
 
-Lemma valid_scripts : forall s, valid s = true ->
-  exists sc0 rest, sc_scripts s = sc0 :: rest /\ script_ok sc0 false l0 true = true
+Lemma scripts_ok_inv : forall scripts, scripts_ok scripts = true ->
+  exists sc0 rest, scripts = sc0 :: rest /\ script_ok sc0 false l0 true = true
                    /\ (forall sc, In sc rest -> script_ok sc false l0 false = true).
 Proof.
-  intros s H. unfold valid in H. destruct (sc_scripts s) as [|sc0 rest]; [discriminate|].
-  apply andb_true_iff in H. destruct H as (H & H3). apply andb_true_iff in H. destruct H as (_ & H2).
+  intros scripts H. unfold scripts_ok in H. destruct scripts as [|sc0 rest]; [discriminate|].
+  apply andb_true_iff in H. destruct H as (H2 & H3).
   exists sc0, rest. repeat split; auto. rewrite forallb_forall in H3. auto.
 Qed.
 
-Lemma datainv_init : forall s, valid s = true -> DataInv (sc_scripts s) (init_state s).
+Lemma datainv_init : forall s, scripts_ok (sc_scripts s) = true -> DataInv (sc_scripts s) (init_state s).
 Proof.
-  intros s Hv. destruct (valid_scripts _ Hv) as (sc0 & rest & Hs & H0 & Hr).
+  intros s Hv. destruct (scripts_ok_inv _ Hv) as (sc0 & rest & Hs & H0 & Hr).
   unfold init_state. constructor; simpl.
   - apply map_length.
   - intros t th sc Hn Hsc. rewrite nth_error_map, Hsc in Hn. simpl in Hn. inversion Hn; subst. reflexivity.
@@ -130,16 +130,17 @@ Qed.
 
 (* ---------------------------------------------------------------- final state -> spec *)
 Section Final.
-Variable s : scenario.
+Variable scripts : list (list op).       (* every thread's script as a whole *)
 Variable st : state.
-Hypothesis Hv : valid s = true.
+Hypothesis Hv : scripts_ok scripts = true.
 Hypothesis I : LockInv st.
-Hypothesis D : DataInv (sc_scripts s) st.
+Hypothesis D : DataInv scripts st.
 Hypothesis Hdone : all_done st = true.
 Variable pk : nat.                       (* largest occupancy of the locked region seen on the way *)
 Hypothesis Hpk : pk <= 1.
+Variable counts : list (N * N).
 
-Lemma final_loc : forall t th sc, nth_error (st_threads st) t = Some th -> nth_error (sc_scripts s) t = Some sc ->
+Lemma final_loc : forall t th sc, nth_error (st_threads st) t = Some th -> nth_error scripts t = Some sc ->
   th_loc th = final_local sc.
 Proof.
   intros t th sc Hn Hsc. rewrite <- (di_future _ _ D _ _ _ Hn Hsc).
@@ -149,15 +150,15 @@ Proof.
     destruct (li_shape _ I _ _ Hn) as (_ & o & r & e & Hp2 & _); try (rewrite Hph; discriminate); congruence.
 Qed.
 
-Lemma script_of_thread : forall t th, nth_error (st_threads st) t = Some th -> exists sc, nth_error (sc_scripts s) t = Some sc.
+Lemma script_of_thread : forall t th, nth_error (st_threads st) t = Some th -> exists sc, nth_error scripts t = Some sc.
 Proof.
-  intros t th Hn. destruct (nth_error (sc_scripts s) t) eqn:E; eauto.
+  intros t th Hn. destruct (nth_error scripts t) eqn:E; eauto.
   apply nth_error_None in E. rewrite <- (di_len _ _ D) in E. assert (t < length (st_threads st)) by (apply nth_error_Some; congruence). lia.
 Qed.
-Lemma thread_of_script : forall t sc, nth_error (sc_scripts s) t = Some sc -> exists th, nth_error (st_threads st) t = Some th.
+Lemma thread_of_script : forall t sc, nth_error scripts t = Some sc -> exists th, nth_error (st_threads st) t = Some th.
 Proof.
   intros t sc Hn. destruct (nth_error (st_threads st) t) eqn:E; eauto.
-  apply nth_error_None in E. rewrite (di_len _ _ D) in E. assert (t < length (sc_scripts s)) by (apply nth_error_Some; congruence). lia.
+  apply nth_error_None in E. rewrite (di_len _ _ D) in E. assert (t < length scripts) by (apply nth_error_Some; congruence). lia.
 Qed.
 
 Lemma all_held : forall x, In x (sh_table (st_sh st)) -> held (st_threads st) x = true.
@@ -169,7 +170,7 @@ Proof.
   - apply nth_error_None in Hn. lia.
 Qed.
 
-Lemma entry_expected : forall x, In x (sh_table (st_sh st)) -> In (triple x) (expected_entries 0 (sc_scripts s)).
+Lemma entry_expected : forall x, In x (sh_table (st_sh st)) -> In (triple x) (expected_entries 0 scripts).
 Proof.
   intros x Hx. pose proof (di_tbl _ _ D) as T. pose proof (ti_owner _ _ T x Hx) as Ho.
   destruct (nth_error (st_threads st) (t_owner x)) as [th|] eqn:Hn; [|apply nth_error_None in Hn; lia].
@@ -178,10 +179,10 @@ Proof.
   destruct (slot_get (t_slot x) (l_slots (th_loc th))) as [si|] eqn:Hs; [|discriminate].
   simpl in Ha. unfold info, sinfo in Ha. inversion Ha.
   rewrite (final_loc _ _ _ Hn Hsc) in Hs. apply slot_get_In in Hs.
-  pose proof (in_expected (sc_scripts s) 0 _ _ _ _ Hsc Hs) as Hin. simpl in Hin. unfold triple. rewrite H0. exact Hin.
+  pose proof (in_expected scripts 0 _ _ _ _ Hsc Hs) as Hin. simpl in Hin. unfold triple. rewrite H0. exact Hin.
 Qed.
 
-Lemma expected_entry : forall y, In y (expected_entries 0 (sc_scripts s)) -> In y (map triple (sh_table (st_sh st))).
+Lemma expected_entry : forall y, In y (expected_entries 0 scripts) -> In y (map triple (sh_table (st_sh st))).
 Proof.
   intros y Hy. destruct (expected_in _ _ _ Hy) as (t & sc & k & si & Hsc & Hin & ->). simpl.
   destruct (thread_of_script _ _ Hsc) as (th & Hn).
@@ -192,9 +193,9 @@ Proof.
   apply in_map_iff. exists x. split; auto. unfold triple. congruence.
 Qed.
 
-Lemma final_meets_spec : spec s (observe s pk st) = true.
+Lemma final_meets_spec : spec_core scripts (observe_core (n_tests_of scripts) pk counts st) = true.
 Proof.
-  destruct (valid_scripts _ Hv) as (sc0 & rest & Hs & H0 & Hr).
+  destruct (scripts_ok_inv _ Hv) as (sc0 & rest & Hs & H0 & Hr).
   pose proof (di_tbl _ _ D) as T.
   assert (Hnone : filter (fun x => negb (held (st_threads st) x)) (sh_table (st_sh st)) = []).
   { apply filter_none. intros x Hx. rewrite all_held; auto. }
@@ -203,8 +204,8 @@ Proof.
   destruct (st_threads st) as [|th0 ths] eqn:Hths.
   { pose proof (di_len _ _ D) as Hl. rewrite Hths, Hs in Hl. discriminate. }
   assert (Hth0 : nth_error (st_threads st) 0 = Some th0) by (rewrite Hths; reflexivity).
-  assert (Hsc0 : nth_error (sc_scripts s) 0 = Some sc0) by (rewrite Hs; reflexivity).
-  unfold spec, observe. cbn [o_done o_verdicts o_wfail o_adv o_distinct o_foreign o_rest o_overlap o_entries].
+  assert (Hsc0 : nth_error scripts 0 = Some sc0) by (rewrite Hs; reflexivity).
+  unfold spec_core, observe_core. cbn [o_done o_verdicts o_wfail o_adv o_distinct o_foreign o_rest o_overlap o_entries].
   rewrite Hths. cbn [tl]. rewrite Hdone, Hnone, Hall.
   repeat (apply andb_true_iff; split); auto.
   - (* verdicts *)
@@ -219,7 +220,7 @@ Proof.
     rewrite E. reflexivity.
   - (* sequence numbers handed out = allocations made *)
     apply N.eqb_eq. pose proof (di_count _ _ D) as C.
-    rewrite <- (sum_allocs_expected (st_threads st) (sc_scripts s) (di_len _ _ D) final_loc). lia.
+    rewrite <- (sum_allocs_expected (st_threads st) scripts (di_len _ _ D) final_loc). lia.
   - (* distinct, within range *)
     apply nodup_N_true. apply (ti_seqs _ _ T).
   - apply forallb_forall. intros x Hx. pose proof (ti_seq _ _ T x Hx). apply andb_true_iff. split; [apply N.leb_le|apply N.ltb_lt]; lia.
@@ -233,28 +234,3 @@ Proof.
 Qed.
 
 End Final.
-
-(* ---------------------------------------------------------------- for every schedule *)
-Section All.
-Variable c : cfg.
-Hypothesis Hw : wiring_ok (cfg_wiring c) = true.
-Hypothesis Hunl : cfg_reporter_unlocks c = true.
-
-Lemma every_schedule_meets_spec : forall s sched, valid s = true ->
-  all_done (complete c (exec c sched (init_state s))) = true /\ spec s (completed_obs c s sched) = true.
-Proof.
-  intros s sched Hv. unfold completed_obs. set (st := complete c (exec c sched (init_state s))).
-  pose proof (wiring_ok_good _ Hw) as Hg. pose proof (wiring_good_all_lock _ Hg) as Hl.
-  destruct (both_exec c Hg Hunl (sc_scripts s) sched (init_state s) (lockinv_init s) (datainv_init s Hv)) as (I1 & D1).
-  destruct (complete_done c Hl Hunl _ I1) as (Hd & I2).
-  assert (D2 : DataInv (sc_scripts s) st) by (apply both_drain; auto).
-  split; auto. apply final_meets_spec; auto. apply run_peak_le_1; auto. apply lockinv_init.
-Qed.
-
-End All.
-
-Lemma run_meets_spec : forall s, valid s = true -> spec s (run s) = true.
-Proof.
-  intros s Hv. unfold run, run_with.
-  apply (proj2 (every_schedule_meets_spec (cfg_of ts_table true s) ts_wiring_ok eq_refl s (sc_sched s) Hv)).
-Qed.
